@@ -232,6 +232,21 @@ func catalogue(rec *recorder) map[string]interface{} {
 		"Mix3":  func(a uint8, s string, c int32) int32 { rec.add("Mix3", a, s, c); return c },
 		"NoRet": func() { rec.add("NoRet") },
 		"Boom":  func() { panic("catalogue Boom") },
+		"Gate": func(n string) { // Hold without the second record: one call recorded whatever the interleaving
+			rec.add("Gate", n)
+			if rec.gate != nil {
+				rec.gate.Hold(n)
+			}
+		},
+		"After": func(n string) { // returns once gate n has been reached by another goroutine (recorded then: after that goroutine's own record)
+			if rec.gate != nil && rec.gate.hold == n {
+				select {
+				case <-rec.gate.reached:
+				case <-time.After(10 * time.Second):
+				}
+			}
+			rec.add("After", n)
+		},
 		"Hold": func(n string) {
 			rec.add("Hold", n)
 			if rec.gate != nil {
@@ -569,6 +584,7 @@ type lCase struct {
 	Twice    bool      `json:"twice"`    // execute the rule set twice on the same builder/engine (C15)
 	Reinject bool      `json:"reinject"` // then inject FRESH objects under the same names into the same data context and execute again (C03)
 	Hold     string    `json:"hold"`     // Hold("<name>") blocks until the adversary releases it (C18)
+	Model    string    `json:"model"`    // "" = sort model; "concurrent" = ExecuteConcurrent (C15: overlapping executions of several rules)
 }
 
 type lObs struct {
@@ -600,7 +616,11 @@ func runLangOnce(rb *builder.RuleBuilder, c *lCase, rec *recorder, builts []*bui
 				obs.ErrMsg = fmt.Sprint(r)
 			}
 		}()
-		err = g.Execute(rb, true)
+		if c.Model == "concurrent" {
+			err = g.ExecuteConcurrent(rb)
+		} else {
+			err = g.Execute(rb, true)
+		}
 	}
 	if c.Hold == "" {
 		run()
